@@ -103,8 +103,10 @@ func VerifHarness_C04_header_authenticated() {
 	_ = err
 	if which < 3 {
 		verifAssert("C04.auth.modifiedHeaderNeverDelivered", n == 0)
+		verifAssert("C05.auth.modifiedHeaderNeverDelivered", n == 0)
 	} else {
 		verifAssert("C04.auth.modifiedLengthDeliversNothingForged", n == 0 || (n == len(pt) && bytes.Equal(buf[:n], pt)))
+		verifAssert("C05.auth.modifiedLengthDeliversNothingForged", n == 0 || (n == len(pt) && bytes.Equal(buf[:n], pt)))
 	}
 	verifReach("rejected")
 }
